@@ -39,7 +39,10 @@ Definition no_cl (h : hdrs) : hdrs := hdel s_content_length h.
 
 Definition interim_match (p o : list (Z * hdrs)) : bool :=
   Nat.eqb (length p) (length o)
-  && forallb (fun po => Z.eqb (fst (fst po)) (fst (snd po)) && hdrs_match (hsort (snd (fst po))) (hsort (snd (snd po)))) (combine p o).
+  (* a "100 Continue" is compared by its code only: behind a Go reverse proxy it is either the server's own (no headers) or the
+     forwarded one (with the headers set so far), whichever wins a race inside the standard library *)
+  && forallb (fun po => Z.eqb (fst (fst po)) (fst (snd po))
+                        && (Z.eqb (fst (fst po)) 100 || hdrs_match (hsort (snd (fst po))) (hsort (snd (snd po))))) (combine p o).
 
 (* every (k, v) of [pre] occurs in [h] *)
 Definition pre_present (pre h : hdrs) : bool :=
